@@ -26,7 +26,7 @@ CONSTANTS
   ENC8,          \* may messages be 8bit encoded?  BOOLEAN subset
   DSNS,          \* client DSN configurations, subset of {"off","ret","notify","both"}
   NONOOP,        \* subset of BOOLEAN: WithoutNoop
-  SHAPES,        \* reply text shapes: subset of {"lead", "later", "none", "multi", "terse", "multiterse"}
+  SHAPES,        \* reply text shapes: subset of {"lead", "later", "none", "multi", "terse", "multiterse", "xlead", "toomany"}
   CLASSES,       \* fault classes: subset of {"t4","p5","drop","x3","stall","garbage"}
   CODESETS,      \* rotations of the reply-code table, subset of 0..99
   POLICIES,      \* TLS policies: subset of {"mandatory","opportunistic","none"}
@@ -58,7 +58,7 @@ NoErr == [haserr |-> FALSE, reason |-> "", code |-> 0, temp |-> FALSE, esc |-> "
 
 (* shapes of a reply text that BEGINS with an enhanced status code: followed by text, on every line of a multi-line *)
 (* reply, alone ("550 5.5.1"), alone on the first line of a multi-line reply                                        *)
-LeadShapes == {"lead", "multi", "terse", "multiterse", "xlead"}   \* xlead: the enhanced code is of the OTHER class than the reply code ("550 4.5.1 ...")
+LeadShapes == {"lead", "multi", "terse", "multiterse", "xlead", "toomany"}   \* xlead: the enhanced code is of the OTHER class than the reply code ("550 4.5.1 ...")
 
 (* Reply codes of the n-th fault: cfg.cs rotates through the code space so that     *)
 (* boundary codes (400, 499, 500, 599) and, in the sweep configurations, every     *)
@@ -68,6 +68,10 @@ CodeOf(cls, k) == IF cls = "t4" THEN 400 + ((cfg.cs + 33 * (k - 1)) % 100)
                   ELSE IF cls = "x3" THEN 330 + k ELSE IF cls = "mal" THEN 334 ELSE 0
 EscOf(cls, k)  == IF cls = "t4" THEN <<"4.5.1", "4.5.2", "4.5.3", "4.5.4">>[k]
                   ELSE IF cls = "p5" THEN <<"5.5.1", "5.5.2", "5.5.3", "5.5.4">>[k] ELSE ""
+(* shape "toomany": the "too many recipients" reply of RFC 5321 4.5.3.1.10 - 452 (or the historical 552) with the enhanced code X.5.3 *)
+CodeFor(ch, k) == IF ch.sh = "toomany" /\ ch.c \in {"t4", "p5"} THEN (IF ch.c = "t4" THEN 452 ELSE 552) ELSE CodeOf(ch.c, k)
+EscFor(ch, k)  == IF ch.sh = "toomany" THEN (IF ch.c = "t4" THEN "4.5.3" ELSE "5.5.3")
+                  ELSE EscOf(IF ch.sh = "xlead" THEN (IF ch.c = "t4" THEN "p5" ELSE "t4") ELSE ch.c, k)
 OkCode(v) == CASE v = "DATA" -> 354 [] v = "QUIT" -> 221 [] v \in {"GREET", "STARTTLS"} -> 220
                [] v = "ABORT" -> 501 [] OTHER -> 250
 
@@ -97,8 +101,8 @@ Lost(c) == c \in {"drop", "stall", "wfail", "xclose"}   \* the connection is unu
 (* what the client stores for a failed step *)
 ErrOf(reason, ch, k, rc) ==
   [haserr |-> TRUE, reason |-> reason, temp |-> ch.c = "t4",
-   code |-> IF ch.c \in {"t4", "p5"} THEN CodeOf(ch.c, k) ELSE 0,   \* only 4yz / 5yz codes are reported
-   esc |-> IF "ENHANCEDSTATUSCODES" \in cl.ext /\ ch.sh \in LeadShapes THEN EscOf(IF ch.sh = "xlead" THEN (IF ch.c = "t4" THEN "p5" ELSE "t4") ELSE ch.c, k) ELSE "",
+   code |-> IF ch.c \in {"t4", "p5"} THEN CodeFor(ch, k) ELSE 0,   \* only 4yz / 5yz codes are reported
+   esc |-> IF "ENHANCEDSTATUSCODES" \in cl.ext /\ ch.sh \in LeadShapes THEN EscFor(ch, k) ELSE "",
    rcpts |-> rc]
 LocalErr(reason) == [NoErr EXCEPT !.haserr = TRUE, !.reason = reason]
 
@@ -112,9 +116,9 @@ ReplyEv(v, ch, k, caps, code) ==
   CASE ch.c = "drop"  -> [ev |-> "drop"]
     [] ch.c = "stall" -> [ev |-> "stall"]
     [] OTHER -> [ev |-> "reply",
-                 code |-> IF ch.c = "ok" THEN code ELSE CodeOf(ch.c, k),
+                 code |-> IF ch.c = "ok" THEN code ELSE CodeFor(ch, k),
                  cls  |-> ch.c,
-                 esc  |-> IF ch.c \in {"t4", "p5"} /\ ch.sh \in LeadShapes THEN EscOf(IF ch.sh = "xlead" THEN (IF ch.c = "t4" THEN "p5" ELSE "t4") ELSE ch.c, k) ELSE "",
+                 esc  |-> IF ch.c \in {"t4", "p5"} /\ ch.sh \in LeadShapes THEN EscFor(ch, k) ELSE "",
                  caps |-> caps]
 
 (* debug log records (only when the scenario switches debug logging on):   *)
@@ -147,7 +151,7 @@ ImplicitDot(o) ==
 XO(o0, v, mm, rr, params, cred, mech, ch, caps, okcode) ==
   LET ce == CmdEv(v, mm, rr, params, cred, mech)
       o1 == ImplicitDot(o0)
-      code == IF ch.c = "ok" THEN okcode ELSE CodeOf(ch.c, env.nfault + 1)
+      code == IF ch.c = "ok" THEN okcode ELSE CodeFor(ch, env.nfault + 1)
       key == ProjOf(o1, ce)
       \* "wfail": the transport fails while the client writes this command - it is logged (before
       \* the write) but never reaches the server
@@ -310,7 +314,7 @@ ReadGreeting ==
   /\ \E ch \in {c \in DialChoices : c.c # "wfail"} :
        LET g == CASE ch.c = "drop" -> [ev |-> "drop"] [] ch.c = "stall" -> [ev |-> "stall"]
                   [] OTHER -> [ev |-> "greet", cls |-> ch.c, early |-> FALSE,
-                               code |-> IF ch.c = "ok" THEN 220 ELSE CodeOf(ch.c, env.nfault + 1)] IN
+                               code |-> IF ch.c = "ok" THEN 220 ELSE CodeFor(ch, env.nfault + 1)] IN
        IF ch.c = "ok" THEN obs' = Observe(obs, g) /\ Goto("ehlo") /\ UNCHANGED env
        ELSE /\ env' = [env EXCEPT !.budget = @ - 1, !.nfault = @ + 1,
                                   !.hist = Append(@, [v |-> "GREET", m |-> 0, r |-> 0, c |-> ch.c, sh |-> ch.sh])]
